@@ -157,7 +157,7 @@ def c13a(ctx, impls, floors=True):
     o.sites = n
     if floors and n < 12:
         ctx.fail(o, "(program)", "expected >= 12 hashing loops, found %d" % n)
-    o = ctx.ob("C13.a", "discriminant-before-alternation", "K9", "every alternation on the value's own variant is preceded by hashing its discriminant")
+    o = ctx.ob("C13.a", "discriminant-before-alternation", "K9", "every alternation on the value's own variant is preceded by hashing its discriminant (or every arm hashes it on every path)")
     m = 0
     for im, b in impls:
         for sb in df.switches(b):
@@ -176,6 +176,13 @@ def c13a(ctx, impls, floors=True):
             ctx.touch(b)
             disc = [s for s in hash_events(b) if b.site_dominates(s, Site(b, sb, len(b.blocks[sb]["stmts"]))) and
                     any(x.kind == "call" and (x.callee() or "").endswith("core::mem::discriminant") for x in df.origins_of_operand(b, s.node["args"][0]))]
+            if not disc:
+                # equally good: the discriminant is hashed inside EVERY arm, on every path of it
+                dsites = [s for s in hash_events(b) if any(x.kind == "call" and (x.callee() or "").endswith("core::mem::discriminant")
+                                                           for x in df.origins_of_operand(b, s.node["args"][0]))]
+                edges_ = [tb for v, tb in df.switch_edges(b, sb) if b.blocks[tb]["term"]["k"] != "unreachable"]
+                if dsites and all(not b.must_pass([tb], [d_.bb for d_ in dsites]) for tb in edges_):
+                    continue
             if not disc:
                 oo = ctx.ob("C13.a", "discriminant-before-alternation/%s" % short(im["self_ty"]), "K9", o.desc)
                 ctx.fail(oo, Site(b, sb, len(b.blocks[sb]["stmts"])), "StableHash for `%s` branches on the variant without hashing the discriminant first: two variants with the same "
